@@ -1,4 +1,6 @@
 ENGINES = [
+ {"name": "chansim", "path": "chansim/", "serves_properties": ["C04", "C05", "C10", "C11"],
+  "kind_free_text": "sender -> simulated faulty medium -> real receiver; seeded and enumerated fault plans within the budget the property promises to tolerate; independent reference models (GF/RS, symbol layouts, check digits) as oracles; fault-free control and fault-injecting configuration reported separately"},
  {"name": "histsim", "path": "histsim/", "serves_properties": ["C16", "C17"],
   "kind_free_text": "seeded operation histories over populations of aliasable mutable objects, compared with naive reference models after every step; ddmin-minimised replayable traces; no scheduler / fault injector (none applies)"},
 ]
@@ -9,8 +11,12 @@ chk("C16", "histsim", "exploration",
     "Trusted: the naive models (a few lines each) and the rule that arguments are in range as the model defines it. No schedule or fault exists for these objects; this is the workload/oracle/replay half of the technique only.",
     "seeded operation-history simulation vs naive reference model, ddmin replay", "DESIGN.md section 6, section 7 C16")
 
+chk("C04", "chansim", "fault_enumeration",
+    "Real RS encoder -> simulated codeword channel -> real RS decoder in all six fields. Exhaustive: every field product/inverse/log against shift-and-reduce arithmetic; every single symbol error (all positions x all magnitudes for the 256-element fields, magnitude sample for GF(1024)/GF(4096), position sample only where the per-job budget is exceeded - counted in the evidence) on every block shape QR, Data Matrix and Aztec use; all double-error position pairs for codes up to length 40. Seeded: weight 1..t error sets incl. exactly t, bursts, both ends. Beyond-budget error sets are never injected.",
+    "Trusted: the harness's table-free GF(2^m) arithmetic and long-division encoder (checked at run time for primitivity and against the slow multiplication). The exhaustive field comparison is differential enumeration rather than simulation and is labelled so in the evidence.",
+    "fault enumeration on a simulated codeword channel (real encoder/decoder, reference GF model)", "DESIGN.md section 5, section 7 C04")
+
 PENDING.update({
- "C04": "claimed by the design (chansim) but its check is not built yet at this commit",
  "C05": "claimed by the design (chansim) but its check is not built yet at this commit",
  "C10": "claimed by the design (chansim) but its check is not built yet at this commit",
  "C11": "claimed by the design (chansim) but its check is not built yet at this commit",
